@@ -13,6 +13,14 @@ META = dict(
 TEMPLATES = {'tree': t_tree}
 
 
+def _timed_child():
+    """the awaited child (not the parent) has a short time-out and a depth-4 chain below it; an unrelated event arrives later."""
+    cfg = S.matrix2(False, 'await_first', 'none', 'awaitG_L', 'ret', '1/4', 'C1')
+    cfg['actors'] = dict(cfg['actors'])
+    cfg['actors']['late'] = [['sleep', '1/8'], ['root', 'A', 'L', 'L2']]
+    return cfg
+
+
 def jobs(tier):
     W = ('in-handler await returned',)
     out = [
@@ -23,6 +31,7 @@ def jobs(tier):
         mk('C05', 'drain/AB', S.drain(('A', 'B')), witnesses=W),
         mk('C05', 'par/await_two_later', S.par_await_two_later(), witnesses=W),
         mk('C05', 'child/await/ffG/k0', S.child('await', k=0, child_ff=True), witnesses=W),
+        mk('C05', 'timed_child/depth4', _timed_child(), witnesses=W),
     ]
     if tier == 'thorough':
         out += [
